@@ -172,6 +172,17 @@ def sym_join(parts):
     return r
 
 
+METHOD_HANDLERS = []  # functions (name, receiver, args, kwargs) -> result | NotImplemented
+
+
+def sym_method(name, recv, *args, **kwargs):
+    for h in METHOD_HANDLERS:
+        r = h(name, recv, args, kwargs)
+        if r is not NotImplemented:
+            return r
+    return getattr(recv, name)(*args, **kwargs)
+
+
 SIMPLE_CALLS = {}  # name -> list of handlers
 
 
@@ -202,6 +213,7 @@ def _install_builtins():
     b.__symx_str__ = sym_str
     b.__symx_format__ = sym_format
     b.__symx_join__ = sym_join
+    b.__symx_method__ = sym_method
     for name in ("chr", "ord", "print", "bytes", "bytearray", "repr", "hash", "len", "range", "round", "divmod", "sorted", "tuple", "list", "set", "frozenset", "dict", "enumerate", "zip", "iter", "next", "reversed", "id"):
         setattr(b, f"__symx_{name}__", _dispatch(name, getattr(builtins, name)))
 
@@ -211,7 +223,7 @@ _install_builtins()
 TYPE_CALLS = {"isinstance": "__symx_isinstance__", "int": "__symx_int__", "float": "__symx_float__", "str": "__symx_str__"}
 SIMPLE_CALL_NAMES = {"chr", "ord", "print", "bytes", "bytearray", "repr", "hash", "id"}
 SCALAR_CLASS_PATTERNS = {"int", "float", "str", "bool", "bytes"}
-MODULE_SHIMS = {"math": "vx.shim_math", "re": "vx.shim_re", "struct": "vx.shim_struct"}
+MODULE_SHIMS = {"math": "vx.shim_math", "re": "vx.shim_re", "struct": "vx.shim_struct", "io": "vx.shim_io"}
 
 
 class IdentityRewriter(ast.NodeTransformer):
@@ -336,6 +348,9 @@ class FullRewriter(_SkipAnnotations, ast.NodeTransformer):
 
     def visit_Call(self, node):
         self.generic_visit(node)
+        if isinstance(node.func, ast.Attribute) and node.func.attr in self.opts.get("methods", ()) and not any(isinstance(a, ast.Starred) for a in node.args) \
+                and not any(k.arg is None for k in node.keywords) and not (isinstance(node.func.value, ast.Call) and isinstance(node.func.value.func, ast.Name) and node.func.value.func.id == "super"):
+            return ast.copy_location(ast.Call(ast.Name("__symx_method__", ast.Load()), [ast.Constant(node.func.attr), node.func.value] + node.args, node.keywords), node)
         if isinstance(node.func, ast.Name):
             n = node.func.id
             if n in TYPE_CALLS:
